@@ -20,6 +20,7 @@ type Clause struct {
 	Site string // for call-site asserts: callee#k
 	Args []string
 	Mode string // "", "int", "bv": only visible in that mode
+	WF    bool  // data well-formedness precondition: checked by full-mode callers, assumed by thin-mode callers
 	Local bool  // checked in the function itself, not exported to callers (may mention locals)
 	File string
 	Line int
@@ -139,6 +140,11 @@ func (ss *SpecSet) parseFile(path string) error {
 		if i := strings.IndexAny(t, " \t"); i >= 0 {
 			kw, rest = t[:i], strings.TrimSpace(t[i+1:])
 		}
+		cwf := false
+		if kw == "wf" && strings.HasPrefix(rest, "requires ") {
+			cwf = true
+			kw, rest = "requires", strings.TrimSpace(rest[9:])
+		}
 		clocal := false
 		if kw == "local" && strings.HasPrefix(rest, "ensures ") {
 			clocal = true
@@ -162,7 +168,7 @@ func (ss *SpecSet) parseFile(path string) error {
 			if tg == nil && cur != nil {
 				tg = cur.Tags
 			}
-			return &Clause{Kind: kind, Expr: e, Text: text, Tags: tg, File: path, Line: l.no, Mode: cmode, Local: clocal}, nil
+			return &Clause{Kind: kind, Expr: e, Text: text, Tags: tg, File: path, Line: l.no, Mode: cmode, Local: clocal, WF: cwf}, nil
 		}
 		switch kw {
 		case "func", "lemma":
